@@ -138,6 +138,7 @@ inductive Op where
   | rename (old new : String)
   | join (how : How) (on : List String) (other : DF)
   | crossJoin (other : DF)
+  | joinOn (how : How) (cond : Expr) (other : DF)  -- `join(other, on=<Column>, how)`: column references in `cond` are positions in left ++ right
   | union (other : DF)
   | agg (mode : GroupMode) (keys : List String) (aggs : List AggSpec)
   | pivot (keys : List String) (pcol : String) (values : Option (List String)) (aggs : List AggSpec)
@@ -180,6 +181,48 @@ def svStr : SV → String
   | .str s => s
   | v => litName v
 
+/-! ### join on a condition -/
+
+/-- `merge_schemas(left, right, how)` without join columns: all columns of both sides, the left ones only for semi / anti -/
+def joinOnNames (how : How) (ln rn : List String) : List String :=
+  match how with
+  | .semi | .anti => ln
+  | _ => ln ++ rn
+
+/-- the condition on one pair of rows, evaluated on the columns of both sides; a null condition does not hold -/
+def condHolds (e : Expr) (l r : Row) : Except RefErr Bool :=
+  match evalM (l ++ r) e with
+  | .ok (.bool b) => .ok b
+  | .ok .null => .ok false
+  | _ => .error .typeError
+
+def nullRow (n : Nat) : Row := List.replicate n .null
+
+/-- what one left row contributes, given which right rows it matches -/
+def joinOnLeft (how : How) (rn : Nat) (l : Row) (partners : List Row) : List Row :=
+  match how with
+  | .semi => if partners.isEmpty then [] else [l]
+  | .anti => if partners.isEmpty then [l] else []
+  | .inner | .right => partners.map (l ++ ·)
+  | .left | .full => if partners.isEmpty then [l ++ nullRow rn] else partners.map (l ++ ·)
+
+/-- `join(other, on=<Column>, how)` (REPAIRED): a nested loop; one row per matching pair, null-padded rows for the
+unmatched side of outer joins, left rows by existence / absence of a match for semi / anti -/
+def joinOnRows (how : How) (e : Expr) (ln rn : Nat) (ls rs : List Row) : Except RefErr (List Row) := do
+  let m ← ls.mapM fun l => rs.mapM fun r => condHolds e l r
+  let perLeft := (ls.zip m).flatMap fun (l, ms) =>
+    joinOnLeft how rn l ((rs.zip ms).filterMap fun (r, b) => if b then some r else none)
+  let unmatched := rs.zipIdx.filterMap fun (r, j) =>
+    if m.any (fun ms => ms.getD j false) then none else some (nullRow ln ++ r)
+  return match how with
+    | .right | .full => perLeft ++ unmatched
+    | _ => perLeft
+
+/-- the code as it was: `how` ignored, the matching pairs merged for every join type (kept for the defect witness) -/
+def joinOnRowsOld (e : Expr) (ls rs : List Row) : Except RefErr (List Row) := do
+  let m ← ls.mapM fun l => rs.mapM fun r => condHolds e l r
+  return (ls.zip m).flatMap fun (l, ms) => (rs.zip ms).filterMap fun (r, b) => if b then some (l ++ r) else none
+
 /-- SCHEMA side: the column names after an operation, from the names before it (and, for the automatic
 pivot only, the pivot values found in the data) -/
 def opNames (d : DF) : Op → Except RefErr (List String)
@@ -190,6 +233,7 @@ def opNames (d : DF) : Op → Except RefErr (List String)
   | .rename old new => .ok (d.names.map fun n => if n == old then new else n)
   | .join how on other => .ok (joinNames how d.names other.names on)
   | .crossJoin other => .ok (d.names ++ other.names)
+  | .joinOn how _ other => .ok (joinOnNames how d.names other.names)
   | .union _ => .ok d.names
   | .agg _ keys aggs => .ok (keys ++ aggNames aggs)
   | .pivot keys pcol values aggs => do
@@ -241,6 +285,7 @@ def opRows (d : DF) : Op → Except RefErr (List Row)
         let _ ← findCol other.names c
       return dfJoin how d.names other.names on [d.rows] [other.rows]
   | .crossJoin other => .ok (crossJoin [d.rows] [other.rows])
+  | .joinOn how cond other => joinOnRows how cond d.names.length other.names.length d.rows other.rows
   | .union other => if other.names.length = d.names.length then .ok (unionM d.rows other.rows) else .error .widthMismatch
   | .agg mode keys aggs => do
       let rows ← aggInput d keys aggs
